@@ -405,6 +405,19 @@ func ruleProvenance(r *Run, rule string, k *vecKind) {
 	}
 }
 
+// sinkIterationPaths: the paths of one iteration of the innermost loop that contains in (from the loop header until control
+// returns to the header or leaves the loop); when in is in no loop, the paths from the function's entry.
+func sinkIterationPaths(fn *ssa.Function, in ssa.Instruction) ([]*Path, bool) {
+	loop := innermostLoop(loopsOf(fn), in.Block())
+	if loop == nil {
+		return enumPaths(fn.Blocks[0], walkCfg{MaxVisits: 2, MaxPaths: 20000})
+	}
+	return enumPaths(loop.Header, walkCfg{
+		Stop:      func(b *ssa.BasicBlock) bool { return b == loop.Header || !loop.Blocks[b] },
+		MaxVisits: 2, MaxPaths: 20000,
+	})
+}
+
 // accumulatedTerms: v is f(…(acc)…) through conversions and calls with one argument chain, acc = φ(0, acc + t): the terms t.
 func accumulatedTerms(v ssa.Value) []ssa.Value {
 	for i := 0; i < 8; i++ {
@@ -703,13 +716,74 @@ func ruleNodeLookup(r *Run, rule string, k *vecKind) {
 				test = cv
 			}
 		}
+		byPaths := false
 		if test == nil {
-			r.Bad(rule, key+":deleted", site, "no soft-delete test on the requested node id dominates the append")
-			continue
+			// not by dominance (a not-found arm may bypass the test and fail): on every feasible path that reaches the
+			// append, the last soft-delete test of the requested id came out "not deleted"; and a "deleted" outcome
+			// never reaches the append
+			var tests []*ssa.Call
+			for _, call := range callsIn(fn, func(cc *ssa.CallCommon) bool { return calleeName(cc) == roaringBitmap+"Contains" }) {
+				cv := call.(*ssa.Call)
+				if c.S(cv.Call.Args[0]) == delCanon && c.S(cv.Call.Args[1]) == "P0."+nodeIDs+"[range]" {
+					tests = append(tests, cv)
+				}
+			}
+			okPaths := len(tests) > 0
+			if okPaths {
+				paths, trunc := sinkIterationPaths(fn, s)
+				if trunc {
+					okPaths = false
+				}
+				reached := false
+				for _, pth := range paths {
+					if !pth.Feasible() || !pth.Has(s) {
+						continue
+					}
+					reached = true
+					// position of the (last) append on the path, and the last test decision before it
+					at := -1
+					for j, b := range pth.Blocks {
+						if b == s.Block() {
+							at = j
+						}
+					}
+					last := 0 // 0 none, 1 not deleted, 2 deleted
+					for _, d := range pth.Decisions {
+						if d.At >= at {
+							break
+						}
+						cond, neg := stripNot(d.Cond)
+						for _, tcall := range tests {
+							if cond == ssa.Value(tcall) {
+								if d.Taken != neg {
+									last = 2
+								} else {
+									last = 1
+								}
+							}
+						}
+					}
+					if last != 1 {
+						okPaths = false
+					}
+				}
+				if !reached {
+					okPaths = false
+				}
+			}
+			r.Check(okPaths, rule, key+":deleted", site, "every path to the append passed the soft-delete test of the requested id with outcome 'not deleted'", "no soft-delete test on the requested node id guards the append")
+			if !okPaths {
+				continue
+			}
+			test = tests[0]
+			byPaths = true
 		}
 		// the branch on the test: the true (deleted) successor must not reach the append within the same iteration … it must return an error
-		gated := false
+		gated := byPaths // decided on paths above
 		for _, ref := range *test.Referrers() {
+			if byPaths {
+				break
+			}
 			iff, ok := ref.(*ssa.If)
 			if !ok {
 				continue
@@ -760,6 +834,121 @@ func ruleNodeLookup(r *Run, rule string, k *vecKind) {
 					}
 				}
 			}
+		}
+		if !okElem && len(elems) == 1 {
+			// resolved per path: the appended value is the vector of an element whose id was compared equal to the
+			// requested id earlier on that path
+			want := "P0." + nodeIDs + "[range]"
+			paths, trunc := sinkIterationPaths(fn, s)
+			good, reached := !trunc, false
+			for _, pth := range paths {
+				if !pth.Feasible() || !pth.Has(s) {
+					continue
+				}
+				reached = true
+				cp := NewCanon(w)
+				rv := resolveOnPath(pth, elems[0])
+				es := cp.S(rv)
+				if !strings.HasPrefix(es, "get:vector(") {
+					good = false
+					continue
+				}
+				e := strings.TrimSuffix(strings.TrimPrefix(es, "get:vector("), ")")
+				tied := false
+				for _, d := range pth.Decisions {
+					bo, ok := d.Cond.(*ssa.BinOp)
+					if !ok || bo.Op != token.EQL || !d.Taken {
+						continue
+					}
+					l, rr := cp.S(bo.X), cp.S(bo.Y)
+					idOf := func(s string) bool {
+						return strings.HasPrefix(s, "get:id(") && strings.Contains(e, strings.TrimSuffix(strings.TrimPrefix(s, "get:id("), ")"))
+					}
+					if (idOf(l) && rr == want) || (idOf(rr) && l == want) {
+						tied = true
+					}
+				}
+				if !tied {
+					good = false
+				}
+			}
+			if good && reached {
+				okElem = true
+			}
+		}
+		if !okElem && len(elems) == 1 {
+			// X[slices.IndexFunc(X, func(e) bool { return e.ID() == id })] guarded by index ≥ 0
+			want := "P0." + nodeIDs + "[range]"
+			allInstrs(fn, func(in ssa.Instruction) {
+				ia, ok := in.(*ssa.IndexAddr)
+				if !ok || okElem {
+					return
+				}
+				call, ok := ia.Index.(*ssa.Call)
+				if !ok || !strings.HasPrefix(calleeName(call.Common()), "slices.IndexFunc") || len(call.Call.Args) != 2 {
+					return
+				}
+				if !strings.Contains(c.S(elems[0]), c.S(ia)) || c.S(call.Call.Args[0]) != c.S(ia.X) {
+					return
+				}
+				mc, ok := call.Call.Args[1].(*ssa.MakeClosure)
+				if !ok {
+					return
+				}
+				g, ok := mc.Fn.(*ssa.Function)
+				if !ok {
+					return
+				}
+				cg := NewCanon(w)
+				pred := false
+				for _, ret := range returnsOf(g) {
+					if bo, ok := ret.Results[0].(*ssa.BinOp); ok && bo.Op == token.EQL {
+						l, rr := cg.S(bo.X), cg.S(bo.Y)
+						var fv string
+						switch {
+						case l == "get:id(P0)" && strings.HasPrefix(rr, "FV"):
+							fv = rr
+						case rr == "get:id(P0)" && strings.HasPrefix(l, "FV"):
+							fv = l
+						}
+						if fv != "" {
+							if t, ok := translatePath(c, fv, nil, mc.Bindings); ok && t == want {
+								pred = true
+							}
+						}
+					}
+				}
+				if !pred {
+					return
+				}
+				// found ⇔ index ≥ 0: the use is on the non-negative side of a test of the index
+				for b := s.Block(); b != nil; b = b.Idom() {
+					d := b.Idom()
+					if d == nil {
+						break
+					}
+					iff, ok := d.Instrs[len(d.Instrs)-1].(*ssa.If)
+					if !ok {
+						continue
+					}
+					bo, ok := iff.Cond.(*ssa.BinOp)
+					if !ok || bo.X != ssa.Value(call) {
+						continue
+					}
+					k0, isC := bo.Y.(*ssa.Const)
+					if !isC || k0.Value == nil {
+						continue
+					}
+					onTrue := d.Succs[0] == b || d.Succs[0].Dominates(b)
+					onFalse := d.Succs[1] == b || d.Succs[1].Dominates(b)
+					v := k0.Int64()
+					switch {
+					case bo.Op == token.LSS && v == 0 && onFalse, bo.Op == token.GEQ && v == 0 && onTrue,
+						bo.Op == token.EQL && v == -1 && onFalse, bo.Op == token.NEQ && v == -1 && onTrue, bo.Op == token.GTR && v == -1 && onTrue:
+						okElem = true
+					}
+				}
+			})
 		}
 		r.Check(okElem, rule, key+":match", site, "appended vector belongs to the element whose id equals the requested id",
 			"appended vector "+detail+" is not tied to the requested id")
